@@ -658,6 +658,7 @@ impl Family for Bitmaps {
 }
 
 /// inline values of executions that follow an execution fed by long data
+const LONG_SIZES: [usize; 8] = [8, 0, 300, 1500, 4096, 10_000, 70_000, 1_200_000];
 struct AfterLongData;
 impl Family for AfterLongData {
     fn ambient(&self, idx: u64) -> u64 {
@@ -667,11 +668,14 @@ impl Family for AfterLongData {
         "inline-after-long-data".into()
     }
     fn len(&self) -> u64 {
-        4
+        4 * LONG_SIZES.len() as u64
     }
     fn run(&self, idx: u64, st: &mut Stats) -> Result<(), Violation> {
         st.nontrivial += 1;
         st.bump("after_long_data");
+        let size = LONG_SIZES[(idx / 4) as usize];
+        let idx = idx % 4;
+        let streamed: Vec<u8> = (0..size).map(|i| b's' + (i % 5) as u8).collect();
         let which = (idx % 2) as u16; // the parameter that is streamed first
         let bind_again = idx / 2 == 1;
         let p = |wire: Option<Vec<u8>>, long: bool, ty: u8| ExecParam { ty, unsigned: false, wire, long };
@@ -679,7 +683,7 @@ impl Family for AfterLongData {
         let second = vec![p(Some(vec![3, b'x', b'y', b'z']), false, 0xfc), p(Some(vec![7, 0, 0, 0]), false, 0x03)];
         let payloads = vec![
             with_byte(COM_STMT_PREPARE, b"id=1 p=2"),
-            cmd_long(1, which, b"streamed"),
+            cmd_long(1, which, &streamed),
             cmd_execute(1, 0, 1, &exec_block(&first, true)),
             cmd_execute(1, 0, 1, &exec_block(&second, bind_again)),
             cmd_execute(1, 0, 1, &exec_block(&second, false)),
@@ -690,7 +694,7 @@ impl Family for AfterLongData {
         })
     }
     fn describe(&self, idx: u64) -> J {
-        json!({"streamed_parameter": idx % 2, "second_execution_rebinds": idx / 2 == 1, "history": "prepare(2), long data, execute (streamed), execute (all inline), execute (all inline, reuse)"})
+        json!({"streamed_bytes": LONG_SIZES[(idx / 4) as usize], "streamed_parameter": idx % 2, "second_execution_rebinds": (idx % 4) / 2 == 1, "history": "prepare(2), long data, execute (streamed), execute (all inline), execute (all inline, reuse)"})
     }
 }
 
@@ -714,7 +718,7 @@ pub fn build(quick: bool) -> Check {
     Check {
         id: "C08",
         level: "model_checking",
-        rule: "COM_STMT_EXECUTE parameter blocks built from semantic values by the independent encoder and run through the real run_on; the shim records (type, raw inner value) and applies the documented Into<T> for the corresponding Rust type under catch_unwind. Domains: TINY, SHORT, YEAR exhaustive (signed and unsigned); LONG/INT24/LONGLONG over every 2^k, 2^k+-1 and the bounds; FLOAT/DOUBLE lattices incl. subnormals and infinities; byte strings of every length 0..300 and the length-class edges for all 14 string-like type codes, 65535..65537 (and around 2^24 in thorough); every legal length form of DATE/DATETIME/TIMESTAMP (0,4,7,11; DATE with a time part raw only) and TIME (0,8,12) over boundary calendar values, negative TIME raw only; all 25 type codes x unsigned in four position classes next to every other type; consecutive executions of one statement binding every ordered pair of (type, unsigned) tables (one parameter: all 50^2; two parameters: all 12^4 over the integer codes, thorough: all 50^4 over every code; triples 12^3), values with the top bit set; parameter counts 0..17, 63, 64, 65, 255, 256, 300 with all 2^n NULL bitmaps for n <= 12 (8 in quick) and structured ones above; inline executions that follow an execution fed by long data; every value of the flags byte x iteration counts {0,1,2,2^32-1} x 5 handshake variants (among them one that mentions every capability the server did not offer). Oracle: exactly n parameters, type = bound code, raw value = encoded value, conversion = encoded value (zero dates and negative TIME have no chrono/Duration form and are checked raw).".into(),
+        rule: "COM_STMT_EXECUTE parameter blocks built from semantic values by the independent encoder and run through the real run_on; the shim records (type, raw inner value) and applies the documented Into<T> for the corresponding Rust type under catch_unwind. Domains: TINY, SHORT, YEAR exhaustive (signed and unsigned); LONG/INT24/LONGLONG over every 2^k, 2^k+-1 and the bounds; FLOAT/DOUBLE lattices incl. subnormals and infinities; byte strings of every length 0..300 and the length-class edges for all 14 string-like type codes, 65535..65537 (and around 2^24 in thorough); every legal length form of DATE/DATETIME/TIMESTAMP (0,4,7,11; DATE with a time part raw only) and TIME (0,8,12) over boundary calendar values, negative TIME raw only; all 25 type codes x unsigned in four position classes next to every other type; consecutive executions of one statement binding every ordered pair of (type, unsigned) tables (one parameter: all 50^2; two parameters: all 12^4 over the integer codes, thorough: all 50^4 over every code; triples 12^3), values with the top bit set; parameter counts 0..17, 63, 64, 65, 255, 256, 300 with all 2^n NULL bitmaps for n <= 12 (8 in quick) and structured ones above; inline executions that follow an execution fed by 0..1.2 MB of long data; every value of the flags byte x iteration counts {0,1,2,2^32-1} x 5 handshake variants (among them one that mentions every capability the server did not offer). Oracle: exactly n parameters, type = bound code, raw value = encoded value, conversion = encoded value (zero dates and negative TIME have no chrono/Duration form and are checked raw).".into(),
         assumptions: vec!["wider integer, float and string domains are covered at lattices".into()],
         bounds: json!({"all_bitmaps_up_to_params": if quick {8} else {12}}),
         exhaustive: true,
